@@ -5,6 +5,7 @@ import (
 	"encoding/binary"
 	"fmt"
 	"iter"
+	"sync"
 	"testing"
 	"time"
 
@@ -465,6 +466,7 @@ func TestC08(t *testing.T) {
 
 	hx.Rapid(r, t, "generated_headers", r.N(3000, 40000), genC08, c08Prop(t, r, "generated_headers"))
 	hx.Rapid(r, t, "fault_after_history", r.N(800, 10000), genC08History, c08HistoryProp(t, r, "fault_after_history"))
+	hx.Rapid(r, t, "fault_while_writing", r.N(300, 4000), genC08Busy, c08BusyProp(t, r, "fault_while_writing"))
 
 	hx.Rapid(r, t, "plugin_notifications", r.N(2500, 30000), func(rt *rapid.T) c08Notif {
 		n := pick(rt, "dlen", 0, 1, 1, 2, 3, 255, 256, 4074, 4075, rapid.IntRange(0, 4075).Draw(rt, "dlenr"))
@@ -618,4 +620,125 @@ func genC08History(rt *rapid.T) c08History {
 	c.DurMs = pick(rt, "dur", h/2, h+h/10, 2*h+h/7, 5*h, rapid.IntRange(5, 50).Draw(rt, "durtenths")*h/10)
 	c.TailMs = pick(rt, "tail", 0, 1, h/3-1, h/3+1, h*2/3)
 	return c
+}
+
+// ---- a fault while local writers are busy
+
+// "A NOTIFICATION that corebgp sends always reaches the wire with exactly the
+// code, subcode and data bytes it was constructed with" - also while other
+// goroutines write UPDATEs on the same connection. Writes are slow and
+// serialised (memnet.SetWriteSpin), so a NOTIFICATION that is not handed to
+// the connection in one piece is cut by an UPDATE.
+type c08Busy struct {
+	Out     bool   `json:"out"`
+	Writers int    `json:"writers"`
+	BodyLen int    `json:"body_len"`
+	SpinUs  int64  `json:"spin_us"`
+	Fault   string `json:"fault"` // type (NOTIFICATION with data), marker, len
+	Type    uint8  `json:"type"`  // the bad type octet
+	AfterUs int64  `json:"after_us"`
+}
+
+func c08BusyProp(t *testing.T, r *hx.Run, sub string) func(c c08Busy) hx.Verdict {
+	return func(c c08Busy) hx.Verdict {
+		r.SetCurrent(sub, c)
+		v := hx.Verdict{Class: fmt.Sprintf("writers=%d/%s", c.Writers, c.Fault)}
+		if c.Writers >= 1 && c.Fault == "type" {
+			v.NT = fmt.Sprintf("%+v", c)
+		}
+		p := basePeer(c.Out)
+		var dev *hx.Dev
+		fail := func(key, f string, a ...any) {
+			if dev == nil {
+				dev = hx.Devf(key, f, a...)
+			}
+		}
+		o, serr := world.Single(t, "10.0.0.1", p, c.Out, nil, func(w *world.World, conn *memnet.Conn) {
+			for _, m := range handshakeBytes(p, conn, stEstablished, 90) {
+				conn.RemoteSend(m, nil)
+				w.Settle()
+			}
+			uw := w.Writer(p.Remote, 0)
+			if uw == nil {
+				fail("setup", "session did not establish")
+				return
+			}
+			before, _ := world.Parsed(conn)
+			w.Net.SetWriteSpin(c.SpinUs)
+			var wg sync.WaitGroup
+			for g := 0; g < c.Writers; g++ {
+				wg.Add(1)
+				go func() {
+					defer wg.Done()
+					for k := 0; k < 400; k++ {
+						if uw.WriteUpdate(tagBody(0, 0, int64(g), k, c.BodyLen)) != nil {
+							return
+						}
+					}
+				}()
+			}
+			memnet.Spin(c.AfterUs)
+			hdr := wire.Keepalive()
+			want := wire.Notif{Code: 1}
+			switch c.Fault {
+			case "marker":
+				hdr[9] = 0
+				want.Sub = 1
+			case "len":
+				hdr[16], hdr[17] = 0xff, 0xff
+				want.Sub = 2
+			default:
+				hdr[18] = c.Type
+				want.Sub, want.Data = 3, []byte{c.Type}
+			}
+			conn.RemoteSend(hdr, nil)
+			wg.Wait()
+			w.Net.SetWriteSpin(0)
+			w.Settle()
+			msgs, perr := world.Parsed(conn)
+			if perr != nil {
+				fail("malformed-output", "with %d goroutines writing UPDATEs while the %s fault is answered: %v", c.Writers, c.Fault, perr)
+				return
+			}
+			var notifs []wire.Notif
+			for _, m := range msgs[len(before):] {
+				switch m.Type {
+				case wire.TypeNotification:
+					n, _ := wire.ParseNotif(m.Body)
+					notifs = append(notifs, n)
+				case wire.TypeUpdate:
+					if len(m.Body) != max(c.BodyLen, 16) || m.Body[0] != 0x5A {
+						fail("foreign-update", "an UPDATE of %d bytes that no writer wrote is on the wire", len(m.Body))
+						return
+					}
+				}
+			}
+			if len(notifs) != 1 {
+				fail("no-single-notification", "%s fault while %d goroutines write: %d NOTIFICATIONs on the wire, want %v", c.Fault, c.Writers, len(notifs), want)
+				return
+			}
+			n := notifs[0]
+			if n.Code != want.Code || n.Sub != want.Sub || (c.Fault == "type" && !bytes.Equal(n.Data, want.Data)) {
+				fail("wrong-notification", "%s fault while %d goroutines write: answered with %v, want %v", c.Fault, c.Writers, n, want)
+				return
+			}
+			if !conn.Snapshot().LocalClosed {
+				fail("not-closed", "connection still open after the NOTIFICATION")
+			}
+		})
+		if serr != nil {
+			fail("setup", "%v", serr)
+		}
+		if b := o.Bad(); b != "" {
+			fail("wedge", "%s", b)
+		}
+		v.Dev = dev
+		return v
+	}
+}
+
+func genC08Busy(rt *rapid.T) c08Busy {
+	return c08Busy{Out: rapid.Bool().Draw(rt, "out"), Writers: rapid.IntRange(1, 4).Draw(rt, "writers"), BodyLen: pick(rt, "len", 16, 40, 1000),
+		SpinUs: pick[int64](rt, "spin", 2, 10, 40), Fault: pick(rt, "fault", "type", "type", "marker", "len"),
+		Type: pick[uint8](rt, "type", 0, 5, 9, 255), AfterUs: pick[int64](rt, "after", 0, 20, 100, 400)}
 }
